@@ -65,7 +65,10 @@ func (s StringSchema) Unserialize(data any) (any, error) {
 func (s StringSchema) UnserializeType(data any) (string, error) {
 	unserialized, err := stringInputMapper(data)
 	if err != nil {
-		return "", err
+		return "", &ConstraintError{
+			Message: fmt.Sprintf("'%v' (type %T) is not a valid value for a string", data, data),
+			Cause:   err,
+		}
 	}
 	return unserialized, s.ValidateType(unserialized)
 }
